@@ -42,7 +42,8 @@ VARIABLES
   cfg,    \* constants of the unit: [kind ("conv"|"bel"|"hyb"), rfc, rgen, redrv, rres, floor, lag, aux, auxkd, idle,
           \*   kf, kg, ke, kr, flat, cap, smin, slo, shi, smax, delta, ps, ds, lat, assert,
           \*   pb0 (shaft power before the first step: a warmed-up engine), haux (the hybrid's hard-coded generator
-          \*   aux load), split2 (2 * HybridLoco.fuel_res_split, fixed split: fuel_res_ratio = None)]
+          \*   aux load), split2 (2 * HybridLoco.fuel_res_split), gssr / gssk (2 * fuel_res_ratio / gss_interval, 0 = None:
+          \*   Level B models the fixed split only)]
   pc,     \* "aux" -> "pub" -> "solve" -> ("adv" after an accepted step) -> "aux"
   st,     \* the step being executed: [eng, dtq, req, cls, acc]
   pub,    \* limits published by set_cur_pwr_max_out for this step (PubKeys) incl. the aux load they assumed
@@ -126,9 +127,9 @@ Integ == Acc => \A x \in EKeys : Eq(e[x] - pe[x], p[x] * st.dtq, TI)
 (* discrepancy is carried in `gap`, so that the cumulative L10 keeps deciding everywhere else:          *)
 (*  F-C01-1  BatteryElectricLoco::solve_energy_consumption (battery_electric_loco.rs:52-60) curtails    *)
 (*           the battery's aux to res.pwr_prop_out_max - elec_prop_in when traction <= 0, Locomotive    *)
-(*           integrates the uncurtailed pwr_aux (locomotive_model.rs:1135)          -> AuxCurtailed     *)
+(*           integrates the uncurtailed pwr_aux (locomotive_model.rs:1140)          -> AuxCurtailed     *)
 (*  F-C01-2  HybridLoco::solve_energy_consumption feeds the generator a hard-coded 50 kW aux           *)
-(*           (hybrid_loco.rs:299, :318, `// TODO: fix this`) whatever Locomotive.state.pwr_aux is       *)
+(*           (hybrid_loco.rs:305, :328, `// TODO: fix this`) whatever Locomotive.state.pwr_aux is       *)
 (*           (every hybrid step)                                                    -> HybAuxRoll       *)
 CurtailClass == cfg.kind = "bel" /\ st.req <= 0 /\ pub.propmax - p.ine < pub.aux
 KnownAuxClass == CurtailClass \/ Hyb
@@ -153,8 +154,8 @@ OrderRes   == Acc /\ HasRes => IF p.elec > 0 THEN p.elec <= p.chem + T ELSE Abs(
 Monotone   == Acc => \A x \in {"fuel", "lossf", "lossg", "losse", "lossr", "dyn", "edyn"} : e[x] >= pe[x] - T1
 DynBrakeSign == Acc => p.dyn >= -T /\ (p.dyn > T => st.req < 0)
 (* engine commanded off: no fuel, no aux in that step.  F-C08-2 (known): Locomotive::solve_energy_consumption  *)
-(* does not hand engine_on to a HybridLoco (locomotive_model.rs:1119-1121, `TODO: add engine_on and pwr_aux`),   *)
-(* which solves its engine with engine_on = true and the 50 kW generator aux (hybrid_loco.rs:302, :322):        *)
+(* does not hand engine_on to a HybridLoco (locomotive_model.rs:1124-1126, `TODO: add engine_on and pwr_aux`),   *)
+(* which solves its engine with engine_on = true and the 50 kW generator aux (hybrid_loco.rs:308, :331):        *)
 (* reported as HybEngineOff for hybrid units, EngineOff for every other unit.                                   *)
 EngineOffRel == /\ p.fuel = 0 /\ p.gaux = 0 /\ p.raux = 0 /\ p.aux = 0
                 /\ e.fuel = pe.fuel /\ e.gaux = pe.gaux /\ e.raux = pe.raux /\ e.aux = pe.aux
@@ -218,11 +219,11 @@ Limits == WithinLimits /\ Ramp /\ SocWindow /\ PublishedSane             \* C09
 CONSTANT Fault      \* "none" = the code as it is; otherwise one deliberate defect (fault models of bin/selftest):
                     \* "idle_when_off" (F-C08-1 reverted), "no_transient_check", "gen_ignores_aux", "soc_sign"
 
-(* Locomotive::set_pwr_aux (locomotive_model.rs:1140): offset + coeff*|pwr_out| of the previous step   *)
+(* Locomotive::set_pwr_aux (locomotive_model.rs:1145): offset + coeff*|pwr_out| of the previous step   *)
 AuxOf(c, eng, out) == IF eng THEN c.aux + (IF c.auxkd = 0 THEN 0 ELSE FDiv(Abs(out), c.auxkd)) ELSE 0
 
 (* set_cur_pwr_max_out chains: conventional_loco.rs:126 (fc -> gen -> edrv), battery_electric_loco.rs:98 *)
-(* (res -> edrv), hybrid_loco.rs:126 (res, fc -> gen, gen + res -> edrv)                                  *)
+(* (res -> edrv), hybrid_loco.rs:121 (res, fc -> gen, gen + res -> edrv)                                  *)
 PubOf(c, aux, brake, s, dtq) ==
   LET hasfc  == c.kind # "bel"
       hasres == c.kind # "conv"
@@ -255,7 +256,7 @@ ResOk(c, pb, s, prop, elec) == /\ (s <= c.smax \/ prop >= 0) /\ (s >= c.smin \/ 
                                                ELSE GeTol(c, elec, -c.rres) /\ GeTol(c, elec, -pb.charge)
 ChemOf(c, elec) == IF elec > 0 THEN elec * c.kr ELSE FDiv(elec, c.kr)     \* res.rs:570
 
-(* Locomotive::solve_energy_consumption (locomotive_model.rs:1098) *)
+(* Locomotive::solve_energy_consumption (locomotive_model.rs:1103) *)
 SolveOf(c, pb, req, eng, s) ==
   LET prop  == Max2(req, -pb.regen)                                       \* electric_drivetrain.rs:201
       dyn   == prop - req
@@ -285,11 +286,11 @@ SolveOf(c, pb, req, eng, s) ==
            p |-> [base EXCEPT !.rprop = ine, !.raux = auxr, !.elec = elec, !.chem = chem, !.lossr = Abs(chem - elec)],
            chem |-> IF Fault = "soc_sign" THEN -chem ELSE chem]
      [] OTHER ->
-       (* HybridLoco::solve_energy_consumption (hybrid_loco.rs:243) with fuel_res_ratio = None: the split is the    *)
+       (* HybridLoco::solve_energy_consumption (hybrid_loco.rs:226) with fuel_res_ratio = None: the split is the    *)
        (* fixed fraction fuel_res_split (1 = all from the generator), limited by what the battery published;       *)
        (* the generator is always loaded with the hard-coded haux and the engine always solved as running.         *)
-       LET fromres == IF ine > 0 THEN Min2(pb.propmax, FDiv(ine * (2 - c.split2), 2)) ELSE ine   \* :289-:293, :309
-           fromgen == ine - fromres                                                              \* :295 (0 in braking, :317)
+       LET fromres == IF ine > 0 THEN Min2(pb.propmax, FDiv(ine * (2 - c.split2), 2)) ELSE ine   \* :295-:299, :319
+           fromgen == ine - fromres                                                              \* :301 (0 in braking, :326)
            mech == (fromgen + c.haux) * c.kg
            fuel == mech * c.kf + c.idle
            chem == ChemOf(c, fromres)
